@@ -5,12 +5,14 @@ ID = "C17"
 AREA = "c17"
 LEAN_PROPS = "Litep2pVerif.Props.C17"
 THEOREMS = ["store_bounds", "default_config_bounds", "no_expired_record", "no_expired_provider", "ttl_monotone",
-            "reannounce_in_place", "providers_closest_step", "providers_closest", "record_store_refines_map", "put_then_get"]
+            "reannounce_in_place", "reannounce_renews_expiry", "providers_closest_step", "providers_closest", "record_store_refines_map", "put_then_get"]
 CONSTS = ["DEFAULT_MAX_RECORDS", "DEFAULT_MAX_RECORD_SIZE_BYTES", "DEFAULT_MAX_PROVIDER_KEYS",
           "DEFAULT_MAX_PROVIDER_ADDRESSES", "DEFAULT_MAX_PROVIDERS_PER_KEY"]
 MANIFEST = {
     "text": "Lean 4 theorems (store_bounds by induction over all operation histories and all configurations; "
             "default_config_bounds on the regenerated constants; no_expired_record/provider, ttl_monotone, reannounce_in_place, "
+            "reannounce_renews_expiry (a re-announcement stores the new record as a whole: the provider stays returned, with "
+            "the new addresses, until the LAST announcement's time + ttl and is not returned from then on), "
             "providers_closest_step; record_store_refines_map + put_then_get: the record half refines a finite map with an explicit "
             "admission rule, every key's content after put/get/provider operations) about an executable model of MemoryStore, plus a seeded correspondence run of the real "
             "MemoryStore against the model's executable definitions and a specification-level oracle. A pure data structure: "
@@ -29,7 +31,10 @@ CONST_TABLE = [
     ("DEFAULT_MAX_PROVIDER_ADDRESSES", _CFG, r"const DEFAULT_MAX_PROVIDER_ADDRESSES: usize = ([^;]+);", 30),
     ("DEFAULT_MAX_PROVIDERS_PER_KEY", _CFG, r"const DEFAULT_MAX_PROVIDERS_PER_KEY: usize = ([^;]+);", 20),
 ]
-RULE = ("seeded operation histories (cfg; put/get/putprov/provs/putlocal/rmlocal over 4 colliding keys, 8 providers, "
+RULE = ("seeded operation histories (cfg; put/get/putprov/provs/putlocal/rmlocal/adv over 4 colliding keys, 8 providers, "
+        "a logical clock the store reads through a cfg-guarded hook and `adv` moves; every 10th case announce -> part of the "
+        "ttl passes -> re-announce with other addresses (remote provider or the local refresh) -> read between the first and "
+        "the second expiry (boundaries included) -> read after the last expiry, and the same for a record's explicit expiry; "
         "expired/unexpired/no expiry, more keys and providers than the bounds; final sweep reading every key) run on "
         "the real MemoryStore and on the Lean model; a case is non-trivial if at least one put/putprov was accepted and "
         "one was refused or evicted; distinct = distinct (ops, observations) transcripts by SHA-256")
@@ -38,9 +43,11 @@ TRUSTED_BASE = ["Lean 4.33 kernel", "axioms: propext, Classical.choice, Quot.sou
                 "adapter /repo/src/verif/c17.rs, harness, verif.py, checks/c17.py",
                 "std binary_search_by modelled by its specification on strictly sorted input (sortedness is a proved invariant)",
                 "SHA-256/XOR distance computed outside the model (Python hashlib) and passed as an input",
-                "std::time::Instant replaced by logical time (clock fixed at 1000; future = hours, past = milliseconds)"]
+                "std::time::Instant::now() inside store.rs reads crate::verif::store_now under --cfg litep2p_verif (one `use … as std` "
+                "line in store.rs; the real clock unless the c17 adapter pinned a logical instant): logical time starts at 1000, "
+                "moves only by `adv`, future = hours, past = milliseconds"]
 ASSUMPTIONS = ["HashMap iteration order is never observable through the MemoryStore API",
-               "a case takes far less than one hour of real time"]
+               "every clock read of MemoryStore is a textual `std::time::Instant::now()` in store.rs (the hook shadows the name)"]
 KEEP_PREFIX = 1
 NOW = 1000
 LOCAL = 0
@@ -78,10 +85,12 @@ def gen_case(rng, n_ops):
             ops.append(f"putprov {k} {p} {rng.choice([0, 1, 2, 3, 4])} d={dist(p, k):x}")
         elif r < 0.88:
             ops.append(f"provs {k}")
-        elif r < 0.95:
+        elif r < 0.93:
             ops.append(f"putlocal {k} d={dist(LOCAL, k):x}")
-        else:
+        elif r < 0.97:
             ops.append(f"rmlocal {k} d={dist(LOCAL, k):x}")
+        else:
+            ops.append(f"adv {rng.choice([1, 1, 2, 3, 24, 47, 48, 49])}")
     for k in KEYS:
         ops.append(f"get {k}")
     for k in KEYS:
@@ -89,10 +98,76 @@ def gen_case(rng, n_ops):
     return ops
 
 
+def gen_expiry_case(rng, variant):
+    """Freshness over elapsed time: announce, let part of the TTL pass, re-announce (same provider, other addresses),
+    read after the FIRST announcement's expiry but before the second's, read after the second's. `variant` picks the
+    announcer (remote / local refresh) and the boundary (exactly at the first expiry / one unit before the second)."""
+    ttl = rng.choice([2, 5, 10, 48])
+    perkey = rng.choice([1, 2, 3])
+    cfg = [rng.choice([1, 2, 3]), 8, rng.choice([1, 2, 3]), rng.choice([2, 3, 4]), perkey, ttl]
+    ops = ["cfg " + " ".join(map(str, cfg))]
+    k = rng.choice(KEYS)
+    local = variant % 2 == 1
+    p = LOCAL if local else rng.randrange(1, 9)
+
+    def ann(na):
+        return f"putlocal {k} d={dist(LOCAL, k):x}" if local else f"putprov {k} {p} {na} d={dist(p, k):x}"
+    a1 = rng.choice([0, 1, 2])
+    a2 = rng.choice([x for x in [0, 1, 2, 3] if x != a1] + [a1])      # (sometimes the very same announcement again)
+    others = [q for q in range(1, 9) if q != p]
+    if rng.random() < 0.5:
+        q = rng.choice(others)
+        ops.append(f"putprov {k} {q} 1 d={dist(q, k):x}")
+    ops.append(ann(a1))
+    a = rng.randrange(1, ttl)
+    ops.append(f"adv {a}")
+    if rng.random() < 0.4:
+        ops.append(f"provs {k}")
+    if rng.random() < 0.3:
+        k2 = rng.choice(KEYS)
+        q = rng.choice(others)
+        ops.append(f"putprov {k2} {q} 2 d={dist(q, k2):x}")
+    ops.append(ann(a2))
+    b = [ttl - a, ttl - 1, rng.randrange(ttl - a, ttl)][(variant // 2) % 3]
+    ops.append(f"adv {b}")
+    ops.append(f"provs {k}")          # first expiry passed, second not: still provided, new addresses
+    if rng.random() < 0.5:            # a third announcement renews once more
+        ops.append(ann(a1))
+        ops.append(f"adv {ttl - 1}")
+        ops.append(f"provs {k}")
+        ops.append("adv 1")
+    else:
+        c = ttl - b - 1
+        if c > 0:
+            ops.append(f"adv {c}")
+            ops.append(f"provs {k}")
+        ops.append("adv 1")
+    ops.append(f"provs {k}")          # the last expiry has passed
+    # the record half: expiry is explicit in the record; the clock now moves
+    kr = rng.choice(KEYS)
+    e = rng.randrange(2, 6)
+    ops.append(f"put {kr} 3 7 {NOW + 3 * ttl + e}")
+    ops.append(f"adv {e - 1}")
+    ops.append(f"get {kr}")
+    ops.append(f"put {kr} 2 9 {NOW + 3 * ttl + e + 2}")
+    ops.append("adv 1")
+    ops.append(f"get {kr}")
+    ops.append("adv 2")
+    ops.append(f"get {kr}")
+    for kk in KEYS:
+        ops.append(f"get {kk}")
+    for kk in KEYS:
+        ops.append(f"provs {kk}")
+    return ops
+
+
 def gen_cases(rng, tier):
     n = {"quick": 1500, "thorough": 60000, "search": 6000}[tier]
     for i in range(n):
-        yield gen_case(rng, rng.choice([4, 8, 15, 25, 40]))
+        if i % 10 == 9:
+            yield gen_expiry_case(rng, i // 10)
+        else:
+            yield gen_case(rng, rng.choice([4, 8, 15, 25, 40]))
 
 
 def mutate_case(rng, case, n):
@@ -128,6 +203,8 @@ def oracle(case, out):
     ref = {}                # key -> list of (dist, peer, addrs, expired?)
     local_keys = set()
     final_some = 0
+    now = NOW               # the logical clock (moved by `adv`)
+    last_ann = {}           # (key, peer) -> clock reading of the last accepted announcement
 
     def v(kind, msg, i):
         bad.append({"kind": kind, "msg": msg, "step": i, "op": case[i], "out": out[i] if i < len(out) else None})
@@ -150,6 +227,9 @@ def oracle(case, out):
         if t[0] == "cfg":
             cfg = list(map(int, t[1:]))
             recs, size, pkeys, paddrs, perkey, ttl = cfg
+            now = NOW
+        elif t[0] == "adv":
+            now += int(t[1])
         elif t[0] == "put":
             puts.setdefault(t[1], []).append((i, int(t[2]), int(t[3]), None if t[4] == "none" else int(t[4])))
         elif t[0] == "get":
@@ -163,8 +243,8 @@ def oracle(case, out):
                 e = None if exp == "none" else int(exp)
                 if not any(p[1] == int(vlen) and (p[2] == int(tag) or int(vlen) == 0) and p[3] == e for p in puts.get(k, [])):
                     v("record-unknown", "get returned a record (value, expiry) that was never put under this key", i)
-                if e is not None and e <= NOW:
-                    v("expired-record", f"get returned a record expired at {exp} (now {NOW})", i)
+                if e is not None and e <= now:
+                    v("expired-record", f"get returned a record expired at {exp} (now {now})", i)
                 if k in seen:
                     j0, e0 = seen[k]
                     # a stored unexpired record with expiry e0 may only give way to one expiring earlier via an
@@ -180,7 +260,7 @@ def oracle(case, out):
                 if k in seen:
                     j0, e0 = seen[k]
                     via_none = any(j0 < p[0] < i and p[3] is None and p[1] < size for p in puts.get(k, []))
-                    if e0 is not None and e0 > NOW and not via_none:
+                    if e0 is not None and e0 > now and not via_none:
                         v("record-lost", f"unexpired record (expires {e0}) disappeared without having been replaced "
                           "by a record without expiry", i)
                 seen.pop(k, None)
@@ -191,7 +271,7 @@ def oracle(case, out):
             else:
                 p, na = LOCAL, 0
             d = dist(p, k)
-            entry = (d, p, list(range(min(na, paddrs))), ttl == 0)
+            entry = (d, p, list(range(min(na, paddrs))), now + ttl)      # reference rule: expiry = LAST announcement + ttl
             if k not in ref:
                 expect = len(ref) < pkeys
                 if expect:
@@ -210,6 +290,8 @@ def oracle(case, out):
             if o != str(expect).lower():
                 v("provider-accept", f"{t[0]} answered {o}, the keep-the-closest specification says {expect}", i)
                 break
+            if expect:
+                last_ann[(k, p)] = now
             if t[0] == "putlocal" and expect:
                 local_keys.add(k)
         elif t[0] == "rmlocal":
@@ -225,6 +307,10 @@ def oracle(case, out):
             got = parse_provs(o)
             if ttl == 0 and got:
                 v("expired-provider", "get_providers returned a provider whose TTL is 0", i)
+            for p, _ in got:
+                la = last_ann.get((k, p))
+                if la is not None and la + ttl <= now and ttl != 0:
+                    v("expired-provider", f"get_providers returned provider {p} last announced at {la} with ttl {ttl} (now {now})", i)
             if perkey >= 1 and len(got) > perkey:
                 v("providers-per-key", f"{len(got)} providers with bound {perkey}", i)
             ds = [dist(p, k) for p, _ in got]
@@ -234,10 +320,15 @@ def oracle(case, out):
                 if len(a) > paddrs:
                     v("provider-addresses", f"{len(a)} addresses with bound {paddrs}", i)
             if ref is not None:
-                live = [e for e in ref.get(k, []) if not e[3]]
+                live = [e for e in ref.get(k, []) if e[3] > now]
                 want = [(e[1], e[2]) for e in live]
                 if got != want:
-                    v("providers-closest", f"providers {got}, specification (closest {perkey}) says {want}", i)
+                    stored = [(e[1], e[2]) for e in ref.get(k, [])]
+                    if sorted(p for p, _ in got) != sorted(p for p, _ in want) and all(g in stored for g in got):
+                        v("provider-expiry", f"providers {got} at {now}; a provider expires at (its LAST announcement + ttl {ttl}): "
+                          f"{[(e[1], e[3]) for e in ref.get(k, [])]} -> {want}", i)
+                    else:
+                        v("providers-closest", f"providers {got}, specification (closest {perkey}) says {want}", i)
                 if k in ref:
                     if live:
                         ref[k] = live
@@ -256,6 +347,8 @@ def stats(case, out, dist_acc):
     for op, o in zip(case, out):
         t = op.split()[0]
         bump(dist_acc, "op:" + t)
+        if t == "provs" and any(c.startswith("adv") for c in case):
+            bump(dist_acc, "provs-after-adv:" + ("empty" if o == "[]" else "some"))
         if t in ("putprov", "putlocal"):
             bump(dist_acc, f"{t}:{o}")
         if t == "get":
